@@ -6,6 +6,7 @@
 #include <cstdint>
 #include <cstring>
 #include <iostream>
+#include <deque>
 #include <list>
 #include <sstream>
 #include <string>
@@ -298,6 +299,36 @@ void run(const std::string& form, char kind, const std::vector<std::uint64_t>& i
         ci = detail::CONTIGUOUS_ITERATOR_V<typename std::list<U>::iterator>;
         from_list = true;
         with_vector([&](auto& v) { call(v, lst.begin()); });
+    }
+    else if (form == "revIt")
+    {  // std::reverse_iterator over the vector: random access, lvalue references, pointer-returning operator-> - and NOT contiguous
+        using R = std::reverse_iterator<decltype(src.begin())>;
+        ci = detail::CONTIGUOUS_ITERATOR_V<R>;
+        expected.clear();
+        for (auto it = src.end(); it != src.begin();) {
+            --it;
+            T t(static_cast<const U&>(*it));
+            expected.push_back(repr<T>(&t));
+        }
+        g_copies = g_moves = 0;
+        with_vector([&](auto& v) { call(v, R{src.end()}); });
+    }
+    else if (form == "deqIt")
+    {  // std::deque iterator positioned so that the items straddle two of the deque's blocks
+        std::deque<U> dq;
+        const std::size_t lead = 4096;
+        for (std::size_t i = 0; i < lead; ++i) dq.push_back(from_repr<U>(0));
+        for (auto& s : src) dq.push_back(s);
+        // find a start position whose n items cross a block boundary: addresses stop being consecutive
+        std::size_t start = lead;
+        if (n >= 2)
+            for (std::size_t i = 1; i + n <= lead; ++i)
+                if (&dq[i + 1] != &dq[i] + 1) { start = i + 1 - (n / 2 ? n / 2 : 1); break; }
+        if (start != lead)
+            for (std::size_t k = 0; k < n; ++k) dq[start + k] = src[k];
+        g_copies = g_moves = 0;
+        ci = detail::CONTIGUOUS_ITERATOR_V<typename std::deque<U>::iterator>;
+        with_vector([&](auto& v) { call(v, dq.begin() + static_cast<std::ptrdiff_t>(start)); });
     }
     else if (form == "moveIt")
     {
